@@ -15,30 +15,30 @@ import (
 )
 
 type Roles struct {
-	P            *Program
-	Watcher      *types.Named
-	Iface        *types.Named // the unexported backend interface
-	Event        *types.Named
-	Op           *types.Named
-	NewWatcher   *ssa.Function
-	NewBuffered  *ssa.Function
-	Ctor         *ssa.Function
-	Backend      *types.Named
-	API          map[string]*ssa.Function
-	Readers      []*ssa.Function
-	EventChans   []*types.Var // struct fields of type chan Event
-	ErrChans     []*types.Var // struct fields of type chan error
-	Done         *types.Var
-	CloseFns     []*ssa.Function // functions containing close(done)
-	IsClosed     []*ssa.Function
-	SendEvent    []*ssa.Function
-	SendError    []*ssa.Function
-	Locks        []*types.Var
-	Tables       []*types.Var
-	StructOf     map[*types.Var]*types.Named
-	ErrClosed    *ssa.Global
-	ErrNonExist  *ssa.Global
-	ErrOverflow  *ssa.Global
+	P           *Program
+	Watcher     *types.Named
+	Iface       *types.Named // the unexported backend interface
+	Event       *types.Named
+	Op          *types.Named
+	NewWatcher  *ssa.Function
+	NewBuffered *ssa.Function
+	Ctor        *ssa.Function
+	Backend     *types.Named
+	API         map[string]*ssa.Function
+	Readers     []*ssa.Function
+	EventChans  []*types.Var // struct fields of type chan Event
+	ErrChans    []*types.Var // struct fields of type chan error
+	Done        *types.Var
+	CloseFns    []*ssa.Function // functions containing close(done)
+	IsClosed    []*ssa.Function
+	SendEvent   []*ssa.Function
+	SendError   []*ssa.Function
+	Locks       []*types.Var
+	Tables      []*types.Var
+	StructOf    map[*types.Var]*types.Named
+	ErrClosed   *ssa.Global
+	ErrNonExist *ssa.Global
+	ErrOverflow *ssa.Global
 }
 
 func (ro *Roles) print(w io.Writer) {
